@@ -103,6 +103,12 @@ func (iter *FastIterator) Next() {
 
 	if iter.fastIterator == nil {
 		iter.fastIterator, iter.err = iter.ndb.getFastIterator(iter.start, iter.end, iter.ascending)
+		if iter.err != nil {
+			// the storage iterator could not be created: stay invalid, Error() reports why
+			iter.fastIterator = nil
+			iter.valid = false
+			return
+		}
 		iter.valid = true
 	} else {
 		iter.fastIterator.Next()
@@ -122,7 +128,10 @@ func (iter *FastIterator) Next() {
 // Close implements dbm.Iterator
 func (iter *FastIterator) Close() error {
 	if iter.fastIterator != nil {
-		iter.err = iter.fastIterator.Close()
+		// keep an iteration error that was already recorded
+		if err := iter.fastIterator.Close(); err != nil && iter.err == nil {
+			iter.err = err
+		}
 	}
 	iter.valid = false
 	iter.fastIterator = nil
